@@ -180,3 +180,20 @@ func CDPValue(dps [][]string) []byte {
 	out, _ := asn1.Marshal(asn1.RawValue{Class: 0, Tag: 16, IsCompound: true, Bytes: body})
 	return out
 }
+
+// CRLWithSignatureOf returns a CRL made of the to-be-signed part of tbsFrom under the signature algorithm and signature
+// value of sigFrom (a "signature transplant": the result carries a signature that is genuine for other content).
+func CRLWithSignatureOf(tbsFrom, sigFrom []byte) []byte {
+	var a, b certificateList
+	if _, err := asn1.Unmarshal(tbsFrom, &a); err != nil {
+		panic(err)
+	}
+	if _, err := asn1.Unmarshal(sigFrom, &b); err != nil {
+		panic(err)
+	}
+	out, err := asn1.Marshal(certificateList{TBS: asn1.RawValue{FullBytes: a.TBS.FullBytes}, Alg: b.Alg, Sig: b.Sig})
+	if err != nil {
+		panic(err)
+	}
+	return out
+}
